@@ -831,6 +831,82 @@ func compactDecodeAll(maxLen int) (n int64) {
 	return
 }
 
+// compactSizes: every size 0..300 plus sizes around the uvarint width boundaries of the length prefix (2^7, 2^14) and
+// byte boundaries, each with the patterns {zeros, ones, alternating, single bit first/last/middle}: binary
+// (CompactMarshal/CompactUnmarshal) and JSON round trips must return the same boolean vector, NumTrueBitsBefore
+// must equal the model's prefix count.
+func compactSizes(thorough bool) (n int64) {
+	var sizes []int
+	for i := 0; i <= 300; i++ {
+		sizes = append(sizes, i)
+	}
+	for _, b := range []int{1023, 1024, 1025, 16383, 16384, 16385, 16391, 16392} {
+		sizes = append(sizes, b)
+	}
+	if thorough {
+		for i := 301; i <= 2100; i++ {
+			sizes = append(sizes, i)
+		}
+	}
+	for _, sz := range sizes {
+		pats := map[string]func(i int) bool{
+			"zeros": func(i int) bool { return false }, "ones": func(i int) bool { return true },
+			"alt":   func(i int) bool { return i%2 == 0 }, "first": func(i int) bool { return i == 0 },
+			"last":  func(i int) bool { return i == sz-1 }, "mid": func(i int) bool { return i == sz/2 },
+		}
+		for pn, pf := range pats {
+			n++
+			a := cba.NewCompactBitArray(sz)
+			model := make([]bool, sz)
+			for i := 0; i < sz; i++ {
+				model[i] = pf(i)
+				if model[i] {
+					a.SetIndex(i, true)
+				}
+			}
+			tr := []string{fmt.Sprintf("NewCompactBitArray(%d) pattern %s", sz, pn)}
+			same := func(b *cba.CompactBitArray) bool {
+				if b.Size() != sz {
+					return false
+				}
+				for i := 0; i < sz; i++ {
+					if b.GetIndex(i) != model[i] {
+						return false
+					}
+				}
+				return true
+			}
+			var back *cba.CompactBitArray
+			var err error
+			if rec := vk.Catch(func() { back, err = cba.CompactUnmarshal(a.CompactMarshal()) }); rec != nil || err != nil || !same(back) {
+				report("Compact.binary-roundtrip", sz, append(tr, "CompactUnmarshal(CompactMarshal())"), fmt.Sprintf("panic=%v err=%v", rec, err))
+			}
+			var jb *cba.CompactBitArray = &cba.CompactBitArray{}
+			if rec := vk.Catch(func() {
+				var bz []byte
+				bz, err = a.MarshalJSON()
+				if err == nil {
+					err = jb.UnmarshalJSON(bz)
+				}
+			}); rec != nil || err != nil || !same(jb) {
+				report("Compact.JSON-roundtrip", sz, append(tr, "UnmarshalJSON(MarshalJSON())"), fmt.Sprintf("panic=%v err=%v", rec, err))
+			}
+			cnt := 0
+			for i := 0; i <= sz; i++ {
+				if i == 0 || i == sz || i == sz/2 {
+					if got := a.NumTrueBitsBefore(i); got != cnt {
+						report("Compact.NumTrueBitsBefore", sz, append(tr, fmt.Sprintf("NumTrueBitsBefore(%d)", i)), fmt.Sprintf("got %d want %d", got, cnt))
+					}
+				}
+				if i < sz && model[i] {
+					cnt++
+				}
+			}
+		}
+	}
+	return
+}
+
 func main() {
 	r = vk.New("model_checking")
 	r.SetBudget(75*time.Second, 12*time.Minute)
@@ -840,6 +916,9 @@ func main() {
 	}
 	cs, ct := bfsCompact(cdepth)
 	dn := compactDecodeAll(dlen)
+	szn := compactSizes(r.Thorough())
+	r.EvalN(szn)
+	r.OutcomeN("compact_size_boundary_roundtrips", szn)
 	states, trans, reached, complete := bfsBitArray(depth)
 
 	if n := bytesNil.Load(); n > 0 {
